@@ -2,7 +2,8 @@
 
    Only property-level statements here; every proof is one [exact] of a lemma of Proofs/TimeP.v,
    followed by Print Assumptions.  The model (Model/Time.v) mirrors the code AFTER
-   fixes/c15-duration-integer.patch and fixes/c15-json-forms.patch; the functions ending in
+   fixes/c15-duration-integer.patch and fixes/c15-json-forms.patch (both landed in /repo as
+   fix commits); the functions ending in
    [_pinned] mirror the float arithmetic of the pinned commit (binary64 modelled exactly over Z)
    and only occur in the [_refuted] theorems.
 
